@@ -369,7 +369,7 @@ function familyR (tier, opts = {}) {
 
 // N: `+` chains. Every sequence of 2..n operands over an operand alphabet, left-nested and right-nested, and as the
 // right side of `+=`
-const N_OPERANDS = ['a', "'l'", '`t`', '1', 'f()', 'o.p', '-a', 'a * 2', 'i++', "('m' + 'n')", '(b + f())', 'null', '`t${b}`', 'undefined']
+const N_OPERANDS = ['a', "'l'", '`t`', '1', 'f()', 'o.p', '-a', 'a * 2', 'i++', "('m' + 'n')", '(b + f())', 'null', '`t${b}`', 'undefined', '`${1}${f()}`']
 function familyN (tier, opts = {}) {
   const n = tier === 'thorough' ? 4 : 3
   const leaves = []
@@ -483,7 +483,9 @@ function all (tier, opts = {}) {
   let leaves = []
   let stats = { states: 1, transitions: 0 }
   const fams = { A: familyA, B: familyB, C: familyC, G: familyG, M: familyM, S: familyS, P: familyP, T: familyT, H: familyH, Q: familyQ, R: familyR, N: familyN, L: familyL, K: familyK }
-  for (const f of (opts.families || ['A', 'B', 'C', 'G'])) {
+  // (VERIF_ONLY_FAMILIES=NL… restricts a run to some families: an aid for re-judging one family after a change)
+  const only = process.env.VERIF_ONLY_FAMILIES
+  for (const f of (opts.families || ['A', 'B', 'C', 'G']).filter((x) => !only || only.includes(x))) {
     const r = fams[f](tier, opts[f] || {})
     leaves = leaves.concat(r.leaves)
     stats = addStats(stats, r.stats)
